@@ -315,11 +315,11 @@ func missWorkloads(r *vlib.Run, g *vlib.Rng) (ws []Workload) {
 	ws = append(ws,
 		operatorUndo("undo-during-save", true, 1, "extend", 3),
 		operatorUndo("undo-idle", false, 1, "fork", 2),
-		undoAtStart("undo-at-start", 1),
 		staleSibling("sibling-restart", false, false, false, 1),
 	)
 	if r.Thorough() {
 		ws = append(ws,
+			undoAtStart("undo-at-start", 1),
 			operatorUndo("undo-during-save-two", true, 2, "fork", 3),
 			operatorUndo("undo-idle-two", false, 2, "extend", 3),
 			undoAtStart("undo-at-start-two", 2),
@@ -547,7 +547,7 @@ func (h *Harness) closedRestarts(w Workload, wr *WlRun, blocksFile string) {
 			r.Eval("clean-restart/"+w.Shape+"/"+mode, fmt.Sprintf("%s|closed%d|%s", w.Name, i, mode))
 			r.Hit("clean-restart-inside-history:library-tail-expected-" + lx)
 			ht := Hit{N: 0, Name: cd.Label, Idx: i + 1, OpIdx: cd.OpIdx, NSub: cd.NSub}
-			rep := map[string]interface{}{"case": Case{Workload: w.Name, Mode: "closed:" + mode, Hit: i + 1}, "ops": w.Ops, "child": c, "before_shutdown": cd.Pre}
+			rep := map[string]interface{}{"case": Case{Workload: w.Name, Mode: "closed:" + mode}, "closed_directory": i + 1, "ops": w.Ops, "child": c, "before_shutdown": cd.Pre}
 			where := fmt.Sprintf("workload %s: the chain was closed cleanly inside the history (op %d); a fresh process (%s mode) re-opening that directory", w.Name, cd.OpIdx, mode)
 			switch {
 			case c.Open != "ok":
